@@ -18,6 +18,12 @@ transforms:
   kw2pos     keyword arguments written positionally wherever the callee is a uniquely resolved project function
   aug2assign counters written x = x + 1 instead of x += 1
   addelse    the inverse: statements after such an if moved into an else
+  cmpneg     if a == b: A else: B -> if a != b: B else: A  (also is / is not, in / not in)
+  guardnest  if a and b: S -> if a: if b: S
+  toifexp    if c: x = p else: x = q -> x = p if c else q
+  npkw       np.zeros(s) -> np.zeros(shape=s), np.full(s, v) -> np.full(fill_value=v, shape=s)
+  comp2loop  X = [E for T in IT] -> X = []; for T in IT: X.append(E)
+  aliasself  the most-read attribute self.<a> of a method read once into a local at the top of the method
   rename     every purely local variable v of a function renamed v_r  (parameters, globals, closure variables untouched)
 """
 import ast, sys, os, json, copy, multiprocessing as mp
@@ -303,7 +309,141 @@ class Combo(ast.NodeTransformer):
         return tree
 
 
-TRANSFORMS = {"flipcmp": FlipCmp, "commute": Commute, "retvar": RetVar, "kworder": KwOrder, "ifinvert": IfInvert, "rename": Rename, "combo": Combo, "swapadj": SwapAdj, "dropelse": DropElse, "addelse": AddElse, "extractvar": ExtractVar, "kw2pos": None, "aug2assign": Aug2Assign}
+def _terminates(body):
+    if not body:
+        return False
+    last = body[-1]
+    if isinstance(last, (ast.Return, ast.Raise, ast.Continue, ast.Break)):
+        return True
+    if isinstance(last, ast.If):
+        return _terminates(last.body) and _terminates(last.orelse)
+    return False
+
+
+class CmpNeg(ast.NodeTransformer):
+    """if a == b: A else: B  ->  if a != b: B else: A   (and is / is not, in / not in)"""
+    MAP = {ast.Eq: ast.NotEq, ast.NotEq: ast.Eq, ast.Is: ast.IsNot, ast.IsNot: ast.Is, ast.In: ast.NotIn, ast.NotIn: ast.In}
+
+    def visit_If(self, n):
+        self.generic_visit(n)
+        t = n.test
+        if n.orelse and not (len(n.orelse) == 1 and isinstance(n.orelse[0], ast.If)) and isinstance(t, ast.Compare) and len(t.ops) == 1 and type(t.ops[0]) in self.MAP:
+            n.test = ast.Compare(left=t.left, ops=[self.MAP[type(t.ops[0])]()], comparators=t.comparators)
+            n.body, n.orelse = n.orelse, n.body
+        return n
+
+
+class GuardNest(ast.NodeTransformer):
+    """if a and b: S  (no else)  ->  if a: if b: S"""
+    def visit_If(self, n):
+        self.generic_visit(n)
+        if not n.orelse and isinstance(n.test, ast.BoolOp) and isinstance(n.test.op, ast.And) and len(n.test.values) == 2:
+            a, b = n.test.values
+            return ast.If(test=a, body=[ast.If(test=b, body=n.body, orelse=[])], orelse=[])
+        return n
+
+
+class ToIfExp(ast.NodeTransformer):
+    """if c: x = p else: x = q  ->  x = p if c else q"""
+    def visit_If(self, n):
+        self.generic_visit(n)
+        if len(n.body) == 1 and len(n.orelse) == 1 and all(isinstance(s, ast.Assign) and len(s.targets) == 1 and isinstance(s.targets[0], ast.Name) for s in (n.body[0], n.orelse[0])) \
+                and n.body[0].targets[0].id == n.orelse[0].targets[0].id:
+            return ast.Assign(targets=[ast.Name(id=n.body[0].targets[0].id, ctx=ast.Store())], value=ast.IfExp(test=n.test, body=n.body[0].value, orelse=n.orelse[0].value), lineno=n.lineno)
+        return n
+
+
+class NpKw(ast.NodeTransformer):
+    """np.zeros(s) -> np.zeros(shape=s);  np.full(s, v) -> np.full(shape=s, fill_value=v);  np.zeros(shape=s) -> np.zeros(s) is the canonical direction, so only the keyword spelling is produced here"""
+    def visit_Call(self, n):
+        self.generic_visit(n)
+        f = n.func
+        if isinstance(f, ast.Attribute) and isinstance(f.value, ast.Name) and f.value.id in ("np", "numpy") and f.attr in ("zeros", "ones", "full", "empty") and n.args and not any(isinstance(a, ast.Starred) for a in n.args):
+            names = ["shape", "fill_value"] if f.attr == "full" else ["shape"]
+            k = min(len(names), len(n.args))
+            n.keywords = [ast.keyword(arg=names[i], value=n.args[i]) for i in range(k)][::-1] + n.keywords if len(n.args) <= len(names) else n.keywords
+            if len(n.args) <= len(names):
+                n.args = []
+        return n
+
+
+class Comp2Loop(ast.NodeTransformer):
+    """X = [E for T in IT (if C)]  ->  X = []; for T in IT: (if C:) X.append(E)      (T not used anywhere else in the function)"""
+    def visit_FunctionDef(self, f):
+        self.generic_visit(f)
+        names = {}
+        for m in ast.walk(f):
+            if isinstance(m, ast.Name):
+                names[m.id] = names.get(m.id, 0) + 1
+
+        def block(stmts):
+            out = []
+            for st in stmts:
+                for fld in ("body", "orelse", "finalbody"):
+                    b = getattr(st, fld, None)
+                    if isinstance(b, list) and b and isinstance(b[0], ast.stmt) and not isinstance(st, (ast.FunctionDef, ast.ClassDef)):
+                        setattr(st, fld, block(b))
+                if isinstance(st, ast.Assign) and len(st.targets) == 1 and isinstance(st.targets[0], ast.Name) and isinstance(st.value, ast.ListComp) and len(st.value.generators) == 1:
+                    g = st.value.generators[0]
+                    x = st.targets[0].id
+                    tn = [m.id for m in ast.walk(g.target) if isinstance(m, ast.Name)]
+                    inside = {}
+                    for m in ast.walk(st.value):
+                        if isinstance(m, ast.Name):
+                            inside[m.id] = inside.get(m.id, 0) + 1
+                    if len(g.ifs) <= 1 and not g.is_async and all(names.get(t, 0) == inside.get(t, 0) for t in tn) and x not in inside \
+                            and not any(isinstance(m, (ast.ListComp, ast.GeneratorExp, ast.SetComp, ast.DictComp, ast.Lambda)) for m in ast.walk(st.value) if m is not st.value):
+                        app = ast.Expr(value=ast.Call(func=ast.Attribute(value=ast.Name(id=x, ctx=ast.Load()), attr="append", ctx=ast.Load()), args=[st.value.elt], keywords=[]))
+                        body = [ast.If(test=g.ifs[0], body=[app], orelse=[])] if g.ifs else [app]
+                        out.append(ast.Assign(targets=[ast.Name(id=x, ctx=ast.Store())], value=ast.List(elts=[], ctx=ast.Load()), lineno=st.lineno))
+                        out.append(ast.For(target=g.target, iter=g.iter, body=body, orelse=[], lineno=st.lineno))
+                        continue
+                out.append(st)
+            return out
+        f.body = block(f.body)
+        return f
+
+
+class AliasSelf(ast.NodeTransformer):
+    """the attribute chain self.<a> that a method reads most often (>= 2 reads, never assigned in the method, not read inside nested functions) is read once into a local at the top"""
+    def visit_FunctionDef(self, f):
+        self.generic_visit(f)
+        if not f.args.args or f.args.args[0].arg != "self" or any(isinstance(n, (ast.Global, ast.Nonlocal)) for n in ast.walk(f)):
+            return f
+        nested = {id(m) for n in ast.walk(f) if n is not f and isinstance(n, (ast.FunctionDef, ast.Lambda, ast.ListComp, ast.GeneratorExp, ast.SetComp, ast.DictComp)) for m in ast.walk(n)}
+        reads, stored = {}, set()
+        for n in ast.walk(f):
+            if isinstance(n, ast.Attribute) and isinstance(n.value, ast.Name) and n.value.id == "self":
+                if isinstance(n.ctx, ast.Load) and id(n) not in nested:
+                    reads.setdefault(n.attr, []).append(n)
+                elif not isinstance(n.ctx, ast.Load):
+                    stored.add(n.attr)
+            if isinstance(n, ast.Name) and n.id == "self" and isinstance(n.ctx, ast.Store):
+                return f
+        # attributes that are called (methods) or are stored stay as they are
+        called = {n.func.attr for n in ast.walk(f) if isinstance(n, ast.Call) and isinstance(n.func, ast.Attribute) and isinstance(n.func.value, ast.Name) and n.func.value.id == "self"}
+        nested_attrs = {n.attr for n in ast.walk(f) if isinstance(n, ast.Attribute) and id(n) in nested and isinstance(n.value, ast.Name) and n.value.id == "self"}
+        cand = sorted(((len(v), k) for k, v in reads.items() if len(v) >= 2 and k not in stored and k not in called and k not in nested_attrs and not k.startswith("__")), reverse=True)
+        if not cand:
+            return f
+        attr = cand[0][1]
+        local = f"{attr}_a"
+        if any(isinstance(n, ast.Name) and n.id == local for n in ast.walk(f)):
+            return f
+        ids = {id(n) for n in reads[attr]}
+
+        class R(ast.NodeTransformer):
+            def visit_Attribute(s2, n):
+                if id(n) in ids:
+                    return ast.Name(id=local, ctx=ast.Load())
+                return s2.generic_visit(n)
+        f = R().visit(f)
+        k = 1 if (f.body and isinstance(f.body[0], ast.Expr) and isinstance(f.body[0].value, ast.Constant) and isinstance(f.body[0].value.value, str)) else 0
+        f.body.insert(k, ast.Assign(targets=[ast.Name(id=local, ctx=ast.Store())], value=ast.Attribute(value=ast.Name(id="self", ctx=ast.Load()), attr=attr, ctx=ast.Load()), lineno=f.lineno))
+        return f
+
+
+TRANSFORMS = {"cmpneg": CmpNeg, "guardnest": GuardNest, "toifexp": ToIfExp, "npkw": NpKw, "comp2loop": Comp2Loop, "aliasself": AliasSelf, "flipcmp": FlipCmp, "commute": Commute, "retvar": RetVar, "kworder": KwOrder, "ifinvert": IfInvert, "rename": Rename, "combo": Combo, "swapadj": SwapAdj, "dropelse": DropElse, "addelse": AddElse, "extractvar": ExtractVar, "kw2pos": None, "aug2assign": Aug2Assign}
 
 
 def _kw2pos_sources():
